@@ -7,31 +7,40 @@ NSLOT = 3
 NINST = 4
 KINDS = {1: ('ce', 'vt::ytask<int, false>', True), 2: ('cl', 'vt::ytask<int, true>', True), 3: ('cg', 'vt::gen<int>', True),
          4: ('cv', 'vt::task<void, false>', False), 5: ('clv', 'vt::task<void, true>', False)}
-NTU = 8
+NTU = 16
 
 def sites():
+    """(kind, ny, retk, ord): ord = position of the completion clause among the CO_YIELD clauses
+    (0 = last, as usually written; 1 = first; 2 = after the first CO_YIELD) - declaration order of the
+    CO_YIELDs is what counts, wherever CO_RETURN / CO_THROW is written"""
     out = []
     for kind, (fn, ty, can_yield) in KINDS.items():
         for ny in (range(0, 4) if can_yield else [0]):
             for retk in ((1, 2, 3) if kind in (1, 2) else (1, 2)):      # a throwing CO_RETURN expression needs a non-void CO_RETURN
-                out.append((kind, ny, retk))
+                out.append((kind, ny, retk, 0))
+                if ny >= 1 and retk in (1, 2):
+                    out.append((kind, ny, retk, 1))
+                    if ny >= 2:
+                        out.append((kind, ny, retk, 2))
     return out
 
-def site_code(S, kind, ny, retk):
+def site_code(S, kind, ny, retk, ord=0):
     fn, ty, can_yield = KINDS[kind]
     valued = kind in (1, 2)
-    ys = ''.join('.CO_YIELD(YV(%d,%d))' % (S, k) for k in range(1, ny + 1))
+    yl = ['.CO_YIELD(YV(%d,%d))' % (S, k) for k in range(1, ny + 1)]
     if retk == 1:
         fin = '.CO_RETURN(CRV(%d))' % S if valued else '.CO_RETURN()'
     elif retk == 2:
         fin = '.CO_THROW(CTH(%d))' % S
     else:
         fin = '.CO_RETURN(CRT(%d))' % S
-    return 'exps[%d] = NAMED_REQUIRE_CALL(*mk, %s()).SIDE_EFFECT(CSE(%d)).RT_TIMES(ub(cfg[%d].lo), ub(cfg[%d].hi))%s%s;' % (S, fn, S, S, S, ys, fin)
+    pos = {0: len(yl), 1: 0, 2: 1}[ord]
+    clauses = ''.join(yl[:pos]) + fin + ''.join(yl[pos:])
+    return 'exps[%d] = NAMED_REQUIRE_CALL(*mk, %s()).SIDE_EFFECT(CSE(%d)).RT_TIMES(ub(cfg[%d].lo), ub(cfg[%d].hi))%s;' % (S, fn, S, S, S, clauses)
 
 def main(outdir, skip=()):
     os.makedirs(outdir, exist_ok=True)
-    all_sites = [(S, k, ny, r) for (k, ny, r) in sites() for S in range(1, NSLOT + 1) if (k, r) not in skip]
+    all_sites = [(S, k, ny, r, o) for (k, ny, r, o) in sites() for S in range(1, NSLOT + 1) if (k, r) not in skip]
     tus = [[] for _ in range(NTU)]
     for i, s in enumerate(all_sites):
         tus[i % NTU].append(s)
@@ -39,16 +48,16 @@ def main(outdir, skip=()):
     for n, tu in enumerate(tus):
         fname = 'csites_%d.cpp' % n
         lines = ['#include "crt.hpp"', 'using namespace cdrv;',
-                 'namespace cdrv { bool make_cexp_%d(int slot, int kind, int ny, int retk) { switch (((slot * 10 + kind) * 10 + ny) * 10 + retk) {' % n]
-        for (S, k, ny, r) in tu:
-            lines.append('case %d: %s return true;' % (((S * 10 + k) * 10 + ny) * 10 + r, site_code(S, k, ny, r)))
-            table['%s:%d' % (fname, len(lines))] = dict(slot=S, kind=k, ny=ny, retk=r)
+                 'namespace cdrv { bool make_cexp_%d(int slot, int kind, int ny, int retk, int ord) { switch ((((slot * 10 + kind) * 10 + ny) * 10 + retk) * 10 + ord) {' % n]
+        for (S, k, ny, r, o) in tu:
+            lines.append('case %d: %s return true;' % ((((S * 10 + k) * 10 + ny) * 10 + r) * 10 + o, site_code(S, k, ny, r, o)))
+            table['%s:%d' % (fname, len(lines))] = dict(slot=S, kind=k, ny=ny, retk=r, ord=o)
         lines.append('default: return false; } } }')
         open(os.path.join(outdir, fname), 'w').write('\n'.join(lines) + '\n')
     disp = ['#include "crt.hpp"', 'namespace cdrv {']
     for n in range(NTU):
-        disp.append('bool make_cexp_%d(int, int, int, int);' % n)
-    disp.append('bool make_cexp(int s, int k, int ny, int r) { return ' + ' || '.join('make_cexp_%d(s, k, ny, r)' % n for n in range(NTU)) + '; }')
+        disp.append('bool make_cexp_%d(int, int, int, int, int);' % n)
+    disp.append('bool make_cexp(int s, int k, int ny, int r, int o) { return ' + ' || '.join('make_cexp_%d(s, k, ny, r, o)' % n for n in range(NTU)) + '; }')
     disp.append('}')
     open(os.path.join(outdir, 'cdisp.cpp'), 'w').write('\n'.join(disp) + '\n')
     json.dump(table, open(os.path.join(outdir, 'csites.json'), 'w'))
